@@ -398,6 +398,44 @@ def check_persist(ctx, kind, card, fmt, sdir):
                       "%s %s: %r came back as %r" % (kind, fmt, card, got), case)
 
 
+def check_persist_population(ctx, cards, fmt, sdir):
+    """Sibling Sections and sibling Properties with different / without cardinalities in one file: each object gets
+    back its own setting (none leaks to a neighbour)."""
+    import odml
+    rec = ctx.rec
+    case = {"part": "persist-population", "cards": enc(list(cards)), "fmt": fmt}
+    rec.evaluation()
+    rec.case(core.h(case), True)
+    doc = odml.Document()
+    host = odml.Section("host", "t", parent=doc)
+    exp = []
+    for i, c in enumerate(cards):
+        s = odml.Section("s%d" % i, "t", parent=host, sec_cardinality=c, prop_cardinality=cards[(i + 1) % len(cards)])
+        p = odml.Property("p%d" % i, values=[1, 2], dtype="int", parent=host, val_cardinality=c)
+        top = odml.Section("top%d" % i, "t", parent=doc, sec_cardinality=cards[(i + 2) % len(cards)])
+        exp.append((s.sec_cardinality, s.prop_cardinality, p.val_cardinality, top.sec_cardinality))
+    path = os.path.join(sdir, "c09pop.%s" % fmt.lower())
+    if os.path.exists(path):
+        os.remove(path)
+    rec.monitor("persist")
+    try:
+        odml.save(doc, path, fmt)
+        back = odml.load(path, fmt, show_warnings=False)
+        got = []
+        for i in range(len(cards)):
+            h = back.sections["host"]
+            got.append((h.sections["s%d" % i].sec_cardinality, h.sections["s%d" % i].prop_cardinality,
+                        h.properties["p%d" % i].val_cardinality, back.sections["top%d" % i].sec_cardinality))
+    except Exception as exc:
+        rec.violation("persist/population/raised-%s" % type(exc).__name__, "%s: %r" % (fmt, exc), case)
+        return
+    for i, (e, g) in enumerate(zip(exp, got)):
+        for what, ev, gv in zip(("sec.sections", "sec.properties", "prop.values", "top.sections"), e, g):
+            if ev != gv:
+                rec.violation("persist/population/%s" % ("leaked-from-a-sibling" if ev is None else ("dropped" if gv is None else "altered")),
+                              "%s position %d %s: %r came back as %r" % (fmt, i, what, ev, gv), case)
+
+
 def _cshape(c):
     if c is None:
         return "unset"
@@ -484,6 +522,12 @@ def run(ctx):
                         i += 1
                         if ctx.mine(i):
                             check_population(ctx, kind, card, counts)
+        for cards in ([(1, 2), None, (None, 3), None], [None, (0, 1), None], [(2, None), (2, None), None, (0, 4)],
+                      [None, None, (1, 1)], [(0, 2), (None, 2), (2, 2)]):
+            for fmt in ("XML", "JSON", "YAML"):
+                i += 1
+                if ctx.mine(i):
+                    check_persist_population(ctx, cards, fmt, sdir)
         if ctx.shard == 0:
             check_parsers(ctx)
         nh = ctx.pick(1500, 300000)
@@ -514,6 +558,8 @@ def replay(case, ctx):
             check_setter(ctx, case["kind"], case["form"], dec(case["prev"]), dec(case["input"]), 0)
         elif part == "report":
             check_report(ctx, case["kind"], dec(case["card"]), case["count"], case["in_doc"])
+        elif part == "persist-population":
+            check_persist_population(ctx, dec(case["cards"]), case["fmt"], env.scratch())
         elif part == "population":
             check_population(ctx, case["kind"], dec(case["card"]), case["counts"])
         elif part == "history":
